@@ -18,6 +18,7 @@ pub mod scen_path;
 pub mod scen_term;
 pub mod txobs;
 pub mod scen_zrtt2;
+pub mod scen_reset;
 pub mod ledger;
 pub mod scen_conn;
 pub mod scen_determ;
